@@ -2504,7 +2504,8 @@ namespace chaiscript {
               switch (m_operators[t_precedence]) {
                 case (Operator_Precedence::Ternary_Cond):
                   if (Symbol(":")) {
-                    if (!Operator(t_precedence + 1)) {
+                    // the else-operand is itself a conditional expression: `a ? b : c ? d : e` is `a ? b : (c ? d : e)`
+                    if (!Operator(t_precedence)) {
                       throw exception::eval_error("Incomplete '" + oper + "' expression",
                                                   File_Position(m_position.line, m_position.col),
                                                   *m_filename);
